@@ -91,6 +91,11 @@ class World:
     def scenario(self, **extra) -> Dict[str, Any]:
         scn = {"format": 1, "driver": "A", "runner_seed": self.r.randrange(2 ** 31), "config": self.cfg,
                "scripts": self.scripts, "probes": self.probes, "knobs": self.knobs}
+        names = self.cfg["simulation"]["markets"]
+        for m in self.markets:
+            if m["index"] and any(names.index(c) > names.index(m["name"]) for c in m["components"]):
+                scn["runner_variant"] = "deporder"
+                scn["index_listed_before_component"] = True
         scn.update(extra)
         return scn
 
@@ -193,3 +198,177 @@ def gen_engine(r: random.Random, profile: str = "engine") -> Dict[str, Any]:
         where = r.randrange(len(good) + 1)
         turns[pos] = good[:where] + [op] + good[where:]
     return w.scenario()
+
+
+# ---------------------------------------------------------------------- generic world with profile switches
+FCN_SETTINGS = {
+    "class": "FCNAgent", "cashAmount": 10000, "assetVolume": 50,
+    "fundamentalWeight": {"expon": [1.0]}, "chartWeight": {"expon": [0.5]}, "noiseWeight": {"expon": [1.0]},
+    "noiseScale": 0.01, "timeWindowSize": [3, 12], "orderMargin": [0.0, 0.1],
+}
+
+
+def add_index_world(r: random.Random, w: World, n_comp: int, equal_shares: bool = False, volatile: float = 0.5,
+                    ticks_one: bool = True) -> str:
+    """components M0..M{n-1} with outstanding shares and an index market placed anywhere in the list."""
+    sh = r.choice([100, 250, 1000])
+    for i in range(n_comp):
+        tick = 1.0 if ticks_one or r.random() < 0.6 else r.choice([0.5, 0.1, 0.01])
+        p0 = float(r.choice([100, 300, 50, 420]))
+        vol = r.choice([0.001, 0.01, 0.03]) if r.random() < volatile else 0.0
+        w.add_market(f"M{i}", tick, p0, vol=vol, drift=r.choice([0.0, 0.001, -0.002]) if r.random() < 0.4 else 0.0,
+                     shares=sh if equal_shares else r.choice([100, 250, 1000, 7, 33]),
+                     price_key=r.choice(["marketPrice", "fundamentalPrice"]))
+    comps = [f"M{i}" for i in range(n_comp)]
+    if r.random() < 0.3:
+        r.shuffle(comps)
+    shares = [w.cfg[c]["outstandingShares"] for c in comps]
+    p_idx = sum(w.cfg[c].get("marketPrice", w.cfg[c].get("fundamentalPrice")) * s for c, s in zip(comps, shares)) / sum(shares)
+    pos = r.choice([None, 0, r.randrange(0, n_comp + 1)])
+    w.add_index("IDX", 1.0 if ticks_one else r.choice([1.0, 0.5]), float(round(p_idx)), comps, position=pos)
+    return "IDX"
+
+
+def gen_world(r: random.Random, profile: str) -> Dict[str, Any]:
+    w = World(r)
+    P = profile
+    with_index = {"ledger": 0.5, "clock": 0.5, "index": 1.0, "logger": 0.2, "callbacks": 0.2, "hooks": 0.4,
+                  "sessions": 0.15}.get(P, 0.0)
+    volatile = {"clock": 0.8, "index": 0.8, "ledger": 0.3}.get(P, 0.2)
+    if r.random() < with_index:
+        add_index_world(r, w, r.randint(2, 4) if P == "index" else r.randint(2, 3), equal_shares=False,
+                        volatile=volatile, ticks_one=r.random() < 0.7)
+    else:
+        basic_markets(r, w, r.choice([1, 1, 2, 3]) if P != "clock" else r.randint(1, 4), volatile=volatile)
+    n_norm = r.randint(1, 6) if P != "sessions" else r.randint(0, 6)
+    n_hft = r.choice([0, 1, 2, 3]) if P not in ("sessions", "callbacks", "hooks") else r.randint(0, 4)
+    if P in ("callbacks", "hooks") and n_hft == 0 and r.random() < 0.7:
+        n_hft = r.randint(1, 3)
+    if n_norm:
+        if n_norm >= 2 and r.random() < 0.3:
+            k = r.randint(1, n_norm - 1)
+            w.add_scripted("SA", k, False)
+            w.add_scripted("SB", n_norm - k, False, cash={"uniform": [5000, 50000]}, asset=[10, 200])
+        else:
+            w.add_scripted("SA", n_norm, False)
+    if n_hft:
+        w.add_scripted("SH", n_hft, True)
+    if not w.scripted:
+        w.add_scripted("SA", 1, False)
+    if P in ("ledger", "clock") and r.random() < 0.5:
+        # built-in agents trade next to the scripted ones
+        d = dict(FCN_SETTINGS)
+        d["numAgents"] = r.randint(1, 5)
+        d["markets"] = [m["name"] for m in w.markets if not m["index"]] or [w.markets[0]["name"]]
+        w.add_group("FCN", d)
+    # sessions
+    if P == "clock":
+        long_run = r.random() < 0.4
+        if long_run:
+            session_layout(r, w, r.randint(1, 3), r.choice([90, 120]), p_noexec=0.2, p_noplace=0.1)
+            while w.total_steps() <= 200:
+                w.add_session(r.randint(40, 120), True, True, max_normal=3, max_hft=2, rate=0.5)
+        else:
+            session_layout(r, w, r.randint(1, 5), r.choice([5, 12, 30]), p_noexec=0.25, p_noplace=0.15)
+            w.knobs["storage_chunk"] = r.randint(2, 9)
+            w.knobs["generation_chunk"] = r.randint(2, 9)
+    elif P == "sessions":
+        n_n = sum(1 for a in w.scripted if not a["hft"])
+        for i in range(r.randint(1, 4)):
+            w.add_session(r.randint(1, 14), r.random() < 0.8, r.random() < 0.6,
+                          max_normal=r.choice([None, 0, 1, 2, n_n, n_n + 1]),
+                          max_hft=r.choice([None, 0, 1, 2, n_hft, n_hft + 1]),
+                          rate=r.choice([None, 0, 0.0, 0.3, 0.7, 1, 1.0]),
+                          legacy=False)
+    else:
+        session_layout(r, w, r.randint(1, 4), r.choice([4, 10, 20]), p_noexec=0.3, p_noplace=0.12)
+        if not any(s["withOrderExecution"] and s["withOrderPlacement"] for s in w.sessions):
+            w.add_session(r.randint(2, 12), True, True, max_normal=len(w.scripted), max_hft=3, rate=1.0)
+    p_empty = 0.5 if P == "sessions" else r.choice([0.2, 0.4, 0.6])
+    fill_scripts(r, w, p_empty=p_empty, p_cancel=r.choice([0.1, 0.2, 0.3]),
+                 p_market=r.choice([0.0, 0.05, 0.15]), p_ttl=r.choice([0.0, 0.4, 0.8]),
+                 bigvol=r.random() < 0.1, max_ops=4 if P == "sessions" else 3,
+                 hft_mult=3 if P in ("sessions", "callbacks", "hooks") else 2)
+    events_for(r, w, P)
+    return w.scenario()
+
+
+def events_for(r: random.Random, w: World, P: str) -> None:
+    total = w.total_steps()
+    real = [m for m in w.markets if not m["index"]]
+    if P in ("sessions", "ledger", "logger", "callbacks", "clock", "index") and r.random() < (0.7 if P == "sessions" else 0.4):
+        # built-in events of every type, on any session
+        n = r.randint(1, 3)
+        for k in range(n):
+            si = r.randrange(len(w.sessions))
+            s = w.sessions[si]
+            kind = r.choice(["FundamentalPriceShock", "TradingHaltRule", "PriceLimitRule", "OrderMistakeShock"])
+            name = f"EV{k}"
+            tgt = r.choice(real)["name"]
+            if kind == "FundamentalPriceShock":
+                w.cfg[name] = {"class": kind, "target": tgt, "triggerTime": r.randrange(0, s["iterationSteps"] + 1),
+                               "priceChangeRate": r.choice([-0.3, -0.1, 0.05, 0.2]), "shockTimeLength": r.randint(1, 3),
+                               "enabled": r.random() < 0.9}
+            elif kind == "TradingHaltRule":
+                w.cfg[name] = {"class": kind, "targetMarkets": [tgt], "triggerChangeRate": r.choice([0.005, 0.01, 0.03, 0.1]),
+                               "haltingTimeLength": r.randint(1, 6), "enabled": r.random() < 0.9}
+            elif kind == "PriceLimitRule":
+                # all real markets targeted unless a finding about non-target markets is being probed elsewhere
+                tg = [m["name"] for m in w.markets] if r.random() < 0.8 else [tgt]
+                w.cfg[name] = {"class": kind, "targetMarkets": tg, "triggerChangeRate": r.choice([0.01, 0.05, 0.2]),
+                               "enabled": r.random() < 0.9}
+            else:
+                w.cfg[name] = {"class": kind, "target": tgt, "triggerTime": r.randrange(0, s["iterationSteps"] + 1),
+                               "priceChangeRate": r.choice([-0.2, -0.05, 0.05, 0.3]), "orderVolume": r.randint(1, 20),
+                               "orderTimeLength": r.randint(1, 5), "enabled": r.random() < 0.9}
+            s.setdefault("events", []).append(name)
+    if P == "hooks":
+        gen_probes(r, w)
+
+
+def gen_probes(r: random.Random, w: World) -> None:
+    total = w.total_steps()
+    kinds = [("order", True), ("order", False), ("cancel", True), ("cancel", False), ("execution", False),
+             ("session", True), ("session", False), ("market", True), ("market", False)]
+    starts = []
+    acc = 0
+    for s in w.sessions:
+        starts.append(acc)
+        acc += s["iterationSteps"]
+    for k in range(r.randint(1, 6)):
+        name = f"PR{k}"
+        hooks = []
+        for kind, before in r.sample(kinds, r.randint(1, 6)):
+            u = r.random()
+            if u < 0.3:
+                times = None
+            elif u < 0.45:
+                times = [r.randrange(0, total + 2)]
+            elif u < 0.65:
+                a = r.randrange(0, total + 1)
+                times = list(range(a, min(total + 2, a + r.randint(1, 8))))
+            elif u < 0.8:
+                times = sorted(r.sample(range(0, total + 3), min(total + 3, r.randint(2, 6))))
+            elif u < 0.9:
+                # session boundaries: first / last step times
+                times = sorted(set(starts + [x - 1 for x in starts if x > 0] + [total - 1, total]))
+            else:
+                times = [total + 5, total + 50]  # never reached
+            h = {"kind": kind, "before": before, "times": times}
+            if kind == "market":
+                v = r.random()
+                if v < 0.25:
+                    h["cls"] = r.choice(["Market", "IndexMarket", "TapMarket", "TapIndexMarket"])
+                elif v < 0.5:
+                    h["inst"] = r.choice(w.markets)["name"]
+                elif v < 0.6:
+                    h["cls"] = r.choice(["Market", "IndexMarket"])
+                    h["inst"] = r.choice(w.markets)["name"]
+            hooks.append(h)
+        spec = {"hooks": hooks}
+        if r.random() < 0.25:
+            spec["alter"] = r.choice([{"f": 1.01}, {"f": 0.97}, {"d": 0.3}, {"f": 1.0}])
+        w.probes[name] = spec
+        w.cfg[name] = {"class": "ProbeEvent"}
+        si = r.randrange(len(w.sessions))
+        w.sessions[si].setdefault("events", []).append(name)
